@@ -115,7 +115,7 @@ func VerifH_C06_StorageCrash() {
 		return s.end <= r || (s.end == r+1 && f.log[r].trunc < 0 && k == len(f.log[r].data))
 	}
 
-	g := &vFile{data: img, failAt: -1}
+	g := &vFile{data: img, failAt: -1, failReadAt: -1}
 	preLen := len(g.data)
 	sc2, err := OpenReadableWritable(g, roots, o.list()...)
 	dataOff := 0
@@ -278,7 +278,7 @@ func VerifH_C06_CrashDuringResume() {
 	inResume := r < resumeEnd-start
 	vCover("cut-inside-resume-writes", inResume && k > 0)
 
-	g := &vFile{data: img, failAt: -1}
+	g := &vFile{data: img, failAt: -1, failReadAt: -1}
 	sc2, err := OpenReadableWritable(g, roots, o.list()...)
 	if err != nil {
 		// refused: the old acknowledged section must still be on disk
@@ -365,7 +365,7 @@ func VerifH_C06_TornHeaderBigPayload() {
 	img := vCrashImage(nil, f.log, r, k)
 	vRegion("index-without-header", k <= 8 && o.indexPad == 0)
 	vRegion("torn-v2-header", k > 8 && k < 16)
-	g := &vFile{data: img, failAt: -1}
+	g := &vFile{data: img, failAt: -1, failReadAt: -1}
 	sc2, err := OpenReadableWritable(g, roots, o.list()...)
 	var fr bytes.Buffer
 	vWriteFrame(&fr, vEntry{c, big})
@@ -386,3 +386,4 @@ func VerifH_C06_TornHeaderBigPayload() {
 	})
 	vCover("reopen-succeeded", true)
 }
+
